@@ -126,27 +126,9 @@ func (b *baseExecutor) traversalArgs(node ast.Node, argsIndex *[]int32) {
 	if node == nil {
 		return
 	}
-	switch node.(type) {
-	case *ast.BinaryOperationExpr:
-		expr := node.(*ast.BinaryOperationExpr)
-		b.traversalArgs(expr.L, argsIndex)
-		b.traversalArgs(expr.R, argsIndex)
-		break
-	case *ast.BetweenExpr:
-		expr := node.(*ast.BetweenExpr)
-		b.traversalArgs(expr.Left, argsIndex)
-		b.traversalArgs(expr.Right, argsIndex)
-		break
-	case *ast.PatternInExpr:
-		exprs := node.(*ast.PatternInExpr).List
-		for i := 0; i < len(exprs); i++ {
-			b.traversalArgs(exprs[i], argsIndex)
-		}
-		break
-	case *test_driver.ParamMarkerExpr:
-		*argsIndex = append(*argsIndex, int32(node.(*test_driver.ParamMarkerExpr).Order))
-		break
-	}
+	// every parameter marker below node counts, whatever expression holds it
+	// (parentheses, NOT, LIKE, function calls, ...)
+	node.Accept(&paramMarkerCollector{argsIndex: argsIndex})
 }
 
 func (b *baseExecutor) buildRecordImages(rowsi driver.Rows, tableMetaData *types.TableMeta, sqlType types.SQLType) (*types.RecordImage, error) {
@@ -394,4 +376,20 @@ func (b *baseExecutor) buildLockKey(records *types.RecordImage, meta types.Table
 	}
 
 	return lockKeys.String()
+}
+
+// paramMarkerCollector collects the order of every parameter marker of a sub tree.
+type paramMarkerCollector struct {
+	argsIndex *[]int32
+}
+
+func (c *paramMarkerCollector) Enter(n ast.Node) (ast.Node, bool) {
+	if p, ok := n.(*test_driver.ParamMarkerExpr); ok {
+		*c.argsIndex = append(*c.argsIndex, int32(p.Order))
+	}
+	return n, false
+}
+
+func (c *paramMarkerCollector) Leave(n ast.Node) (ast.Node, bool) {
+	return n, true
 }
